@@ -23,7 +23,9 @@ def sections(obs):
     out = {}
     body = obs[3:]
     for part in body.split(" | "):
-        toks = part.split(" ")
+        toks = [x for x in part.split(" ") if x]
+        if not toks:
+            continue
         if len(toks) >= 1 and not toks[0].replace("/", "").replace("-", "").isdigit():
             out[toks[0]] = toks[1:]
         else:
@@ -43,6 +45,8 @@ class Case:
         self.eta = self.w = None
         self.cls = None
         self.prms = {}
+        self.prmspecs = {}
+        self.dimlens = []
         for ln, ob in zip(lines, obs):
             t = ln.split(" ")
             if t[0] == "grid":
@@ -52,7 +56,15 @@ class Case:
                 self.items = [int(x) for x in t[2:]]
                 sec = sections(ob)
                 self.bounds = [pnum(x) for x in sec["B"]]
-                self.dt = [pnum(x) for x in sec["DT"]]
+                self.dt_impl = [pnum(x) for x in sec["DT"]]
+                # the documented interval lengths, computed independently of the implementation
+                it_, n_ = self.items, self.n
+                if n_ >= 3:
+                    mids = [Fraction(it_[k] + it_[k + 1], 2) for k in range(n_ - 1)]
+                    bd = [mids[0] - (mids[1] - mids[0])] + mids + [mids[-1] + (mids[-1] - mids[-2])]
+                    self.dt = [bd[k + 1] - bd[k] for k in range(n_)]
+                else:
+                    self.dt = self.dt_impl
             elif t[0] == "quad":
                 if not ob.startswith("ok"):
                     return
@@ -65,10 +77,15 @@ class Case:
             elif t[0] == "note" and t[1] == "cls":
                 self.cls = t[2]
             elif t[0] == "note" and t[1] == "prm":
-                self.prms[t[2]] = [pnum(x) for x in t[3:]]
+                self.prms[t[2]] = [pnum(x) for x in t[3:] if x]
+            elif t[0] == "note" and t[1] == "prmspec":
+                import json as _json
+                self.prmspecs[t[2]] = _json.loads(t[3])
+            elif t[0] == "dim" and len(t) == 3:
+                self.dimlens.append((t[2].split(":")[1], len(t[2].split(":")[4].split(","))))
             elif t[0] == "sval" and ob.startswith("ok"):
-                self.svals[(int(t[1]), int(t[2]))] = [pnum(x) for x in t[3:]]
-                self.ages[(int(t[1]), int(t[2]))] = [pnum(x) for x in sections(ob)["A"]]
+                self.svals[(int(t[1]), int(t[2]))] = [pnum(x) for x in t[3:] if x]
+                self.ages[(int(t[1]), int(t[2]))] = [pnum(x) for x in sections(ob).get("A", []) if x]
             elif t[0] == "sf" and ob.startswith("ok"):
                 self.sf = [pnum(x) for x in ob[3:].split(" ")]
                 self.ok = True
@@ -114,6 +131,9 @@ def check_C03(lines, obs):
     want = [mids[0] - (mids[1] - mids[0])] + mids + [mids[-1] + (mids[-1] - mids[-2])]
     if any(not close(a, b) for a, b in zip(want, c.bounds)):
         return fail(lines[1], "interval bounds at the midpoints, first and last mirrored", want, c.bounds)
+    if any(not close(a, b) for a, b in zip(c.dt, c.dt_impl)):
+        return fail(lines[1], "interval lengths = differences of the documented bounds (first and last mirror their neighbour)",
+                    [float(x) for x in c.dt], [float(x) for x in c.dt_impl])
     if not c.ok:
         return None
     for t, ob, ln in c.runs:
@@ -225,6 +245,24 @@ def check_C10(lines, obs):
     return None
 
 
+def prm_by_label(c, spec, cc, j):
+    """the parameter value for cohort cc and label position j, read off the specification by label"""
+    if spec["kind"] == "scalar":
+        return pnum(spec["v"])
+    letters = [d[0] for d in c.dimlens]
+    lens = [d[1] for d in c.dimlens]
+    # position of j among the non-time labels, row-major
+    idx = {"t": cc}
+    rem = j
+    for l, n in reversed(list(zip(letters[1:], lens[1:]))):
+        idx[l] = rem % n
+        rem //= n
+    pos = 0
+    for l in spec["dims"]:
+        pos = pos * lens[letters.index(l)] + idx[l]
+    return pnum(spec["vals"][pos])
+
+
 def closed_form_sf(cls, age, p):
     """survival function of the declared distribution (floats; the scipy-independent reference)"""
     import math
@@ -264,7 +302,10 @@ def check_C08(lines, obs):
             ages = c.ages[(q, cc)]
             for k, a in enumerate(ages):
                 for j in range(m):
-                    p = {name: float(v[cc * m + j]) for name, v in c.prms.items()}
+                    if c.prmspecs and c.dimlens:
+                        p = {name: float(prm_by_label(c, sp, cc, j)) for name, sp in c.prmspecs.items()}
+                    else:
+                        p = {name: float(v[cc * m + j]) for name, v in c.prms.items()}
                     if c.cls in ("NormalLifetime", "FoldedNormalLifetime", "LogNormalLifetime") and p.get("std", 1) == 0:
                         continue
                     want = closed_form_sf(c.cls, a, p)
